@@ -236,6 +236,8 @@ def explore_chunk(task):
 
 
 def _explore_chunk(modname, hname, prefix, budget_s, max_paths, seed, want_funcs, n_witness):
+    import logging
+    logging.disable(logging.WARNING)      # logging / progress output of the analysed code is not a subject
     h = _load_harness(modname, hname)
     kw = {}
     if h.rlimit_claim:
